@@ -4,7 +4,7 @@
    options Opt) and in the number of sub-environments (arbitrary lists), and quantify over arbitrary
    op lists. *)
 From Coq Require Import List ZArith Bool.
-From SB3V Require Import Gen.Frag_vecenv Model.Script Model.VecEnv Model.OnPolicyCollect Model.VecAttr Proofs.VecEnvProofs Proofs.VecEnvTieProofs Proofs.VecAttrProofs Model.EnvUtil Proofs.EnvUtilProofs.
+From SB3V Require Import Gen.Frag_vecenv Gen.Frag_seed Model.Script Model.VecEnv Model.OnPolicyCollect Model.VecAttr Proofs.VecEnvProofs Proofs.VecEnvTieProofs Proofs.VecAttrProofs Model.EnvUtil Proofs.EnvUtilProofs.
 Import ListNotations.
 Local Open Scope nat_scope.
 
@@ -152,7 +152,8 @@ Theorem C01_step_calls : forall E O A I Opt
 Proof. exact (@step_calls). Qed.
 Print Assumptions C01_step_calls.
 
-(* vector level: seed(s) ... reset() delivers exactly s+i to sub-environment i *)
+(* vector level: seed(s) ... reset() delivers exactly seed_vecenv_elt s i - the element expression `seed + idx` regenerated from
+   VecEnv.seed (fragment group seed) - to sub-environment i *)
 Theorem C01_vec_seed_delivery : forall E O A I Opt
   (e_step : E -> A -> E * (O * Z * bool * bool * I)) (e_reset : E -> option Z -> option Opt -> E * (O * I))
   (envs : list E) i e (pre : list (vop A Opt)) s mid post,
@@ -161,9 +162,15 @@ Theorem C01_vec_seed_delivery : forall E O A I Opt
   forallb vquiet mid = true ->
   exists out obs ri o,
     nth_error (vrun e_step e_reset (vinit envs) ((pre ++ VSeed s :: mid) ++ VReset :: post)) (length (pre ++ VSeed s :: mid)) = Some out /\
-    proj_out i out = Some (SOReset obs ri [CReset (Some (s + Z.of_nat i)%Z) o]).
-Proof. exact (@vec_seed_delivery). Qed.
+    proj_out i out = Some (SOReset obs ri [CReset (Some (seed_vecenv_elt s (Z.of_nat i))) o]).
+Proof. exact (@vec_seed_delivery_regenerated). Qed.
 Print Assumptions C01_vec_seed_delivery.
+
+Theorem C01_seed_list_is_regenerated : forall E O A I Opt
+  (e_step : E -> A -> E * (O * Z * bool * bool * I)) (e_reset : E -> option Z -> option Opt -> E * (O * I)) (vs : vstate E I Opt) s,
+  v_seeds (fst (vapply e_step e_reset vs (VSeed s))) = map (fun idx => Some (seed_vecenv_elt s (Z.of_nat idx))) (seq 0 (num_envs vs)).
+Proof. exact (@vseed_is_regenerated). Qed.
+Print Assumptions C01_seed_list_is_regenerated.
 
 (* --- the per-env auto-reset step duplicated in Model/OnPolicyCollect.v (vstep1, used by C04/C06) is the
        projection of sub_step on the scripted sub-environment --- *)
@@ -244,15 +251,14 @@ Print Assumptions C01_make_vec_env_monitor_files_distinct.
 (* make_vec_env ends with vec_env.seed(seed): through C01_vec_seed_delivery the first reset() gives seed + i to env i *)
 Theorem C01_make_vec_env_first_reset_seeds : forall E O A I Opt
   (e_step : E -> A -> E * (O * Z * bool * bool * I)) (e_reset : E -> option Z -> option Opt -> E * (O * I))
-  (envs : list E) n seed drawn start dir wc i e (mid post : list (vop A Opt)),
-  length envs = n -> nth_error envs i = Some e ->
-  let s := snd (make_vec_env n seed drawn start dir wc) in
+  (envs : list E) seed drawn start dir wc i e (mid post : list (vop A Opt)),
+  nth_error envs i = Some e ->
+  let s := snd (make_vec_env (length envs) seed drawn start dir wc) in
   Forall (wf_vop (length envs)) (([] ++ VSeed s :: mid) ++ VReset :: post) ->
   forallb vquiet mid = true ->
-  s = match seed with Some x => x | None => drawn end /\
   exists out obs ri o,
     nth_error (vrun e_step e_reset (vinit envs) (([] ++ VSeed s :: mid) ++ VReset :: post)) (length ([] ++ VSeed s :: mid)) = Some out /\
-    proj_out i out = Some (SOReset obs ri [CReset (Some (s + Z.of_nat i)%Z) o]).
+    proj_out i out = Some (SOReset obs ri [CReset (Some (match seed with Some x => x | None => drawn end + Z.of_nat i)%Z) o]).
 Proof. exact (@make_vec_env_first_reset_seeds). Qed.
 Print Assumptions C01_make_vec_env_first_reset_seeds.
 
